@@ -85,7 +85,7 @@ NA = {
 KNOWN = {
     "C05": " Known findings reported by this check (exit 0, KNOWN-FINDING lines): F15, F18 (dial outcomes the manager concludes itself are not reported).",
     "C11": " Known finding reported by this check: F12 (dead pending_open after an outbound open failure in Validating).",
-    "C13": " Known findings reported by this check: F15, F18 (via R05.9), F21 (open pending on a dying primary connection beside a secondary).",
+    "C13": " Known findings reported by this check: F15, F18 (via R05.9).",
     "C16": " Known findings reported by this check: F15, F18 (via R05.9), F19 (quorum over the known peers only).",
 }
 
